@@ -145,7 +145,30 @@ func (p *producer) ledgerReadScript(o Op) ([]byte, string) {
 		return util.Uint256{}
 	}
 	// every variant leaves "the ledger does not know it" as a boolean on the stack
-	switch o.Y % 4 {
+	ntx := 0
+	if b, err := bc.GetBlock(bc.GetHeaderHash(idx)); err == nil {
+		ntx = len(b.Transactions)
+	}
+	// (an index inside the block, or one or two past its end: the latter faults for a traceable block and must answer
+	// "unknown" for an untraceable one, whether or not the node still stores the block)
+	ti := int64(o.N) % int64(ntx+2)
+	switch o.Y % 8 {
+	case 4:
+		emit.AppCall(w.BinWriter, nativehashes.LedgerContract, "getTransactionFromBlock", 0x0f, int64(idx), ti)
+		emit.Opcodes(w.BinWriter, opcode.ISNULL)
+		what = fmt.Sprintf("getTransactionFromBlock(%d, %d of %d)", idx, ti, ntx)
+	case 5:
+		emit.AppCall(w.BinWriter, nativehashes.LedgerContract, "getTransactionFromBlock", 0x0f, bc.GetHeaderHash(idx), ti)
+		emit.Opcodes(w.BinWriter, opcode.ISNULL)
+		what = fmt.Sprintf("getTransactionFromBlock(hash of %d, %d of %d)", idx, ti, ntx)
+	case 6:
+		emit.AppCall(w.BinWriter, nativehashes.LedgerContract, "getTransactionSigners", 0x0f, txOf())
+		emit.Opcodes(w.BinWriter, opcode.ISNULL)
+		what = fmt.Sprintf("getTransactionSigners(of block %d)", idx)
+	case 7:
+		emit.AppCall(w.BinWriter, nativehashes.LedgerContract, "getBlock", 0x0f, bc.GetHeaderHash(idx))
+		emit.Opcodes(w.BinWriter, opcode.ISNULL)
+		what = fmt.Sprintf("getBlock(hash of %d)", idx)
 	case 0:
 		emit.AppCall(w.BinWriter, nativehashes.LedgerContract, "getBlock", 0x0f, int64(idx))
 		emit.Opcodes(w.BinWriter, opcode.ISNULL)
